@@ -249,6 +249,9 @@ func runC14(c *Ctx) {
 				}
 			}
 		}
+		if !fb["unset0"] || !fb["unset1"] {
+			counter = "the error does not depend on both copies being set"
+		}
 		c.check(counter == "" && names, "either-or", relName(um)+"#both-set-error", r.Pos(), "the error is returned only when both copies are set, and names the field", "the both-set error is reachable when a copy is unset ("+counter+") or does not name the field")
 	}
 	if nErr == 0 {
